@@ -691,6 +691,7 @@ def jobs(tier, seed):
                    timeout=3000 if thorough else 400, cost=2**(L - 5)))
   from harness import checklevel  # pylint: disable=g-import-not-at-top
   out += checklevel.relational_jobs('C01', ('c01',), tier)
+  out += checklevel.rerun_jobs()
   from harness import selftest  # pylint: disable=g-import-not-at-top
   out += [Job('engine_selftest_%s' % w, selftest.validate, dict(which=w),
               timeout=900, cost=5) for w in ('rsa',)]
